@@ -561,6 +561,10 @@ func ScriptRun(w *World, p *RawPeer, steps []Step) {
 			p.SendJSON(m)
 		}
 		awaited := true
+		if st.Op != "auto" && st.Op != "notls" && p.NeedsTLS() {
+			// a script that does not follow the negotiated TLS upgrade keeps reading in cleartext
+			p.ResumeCleartext()
+		}
 		switch st.Op {
 		case "auto":
 			if p.NeedsTLS() {
@@ -650,7 +654,14 @@ func ScriptRun(w *World, p *RawPeer, steps []Step) {
 				awaited = false
 				break
 			}
-			p.SendBytes([]byte(garbage[st.Garbage%len(garbage)]+"\n"), "garbage")
+			g := garbage[st.Garbage%len(garbage)]
+			if g == "{" || g == "{\"state\":" {
+				// an incomplete JSON value: the receiver legitimately waits for the rest
+				p.SendBytes([]byte(g+"\n"), "half-frame")
+				awaited = false
+			} else {
+				p.SendBytes([]byte(g+"\n"), "garbage")
+			}
 		case "half":
 			if p.Kind == "inproc" {
 				awaited = false
@@ -676,6 +687,9 @@ func ScriptRun(w *World, p *RawPeer, steps []Step) {
 		if awaited {
 			p.AwaitFrame(n0, 3*time.Second)
 		}
+	}
+	if p.NeedsTLS() {
+		p.ResumeCleartext()
 	}
 }
 
